@@ -7,7 +7,7 @@ use serde_json::{json, Value};
 use std::sync::{Arc, Mutex};
 use std::time::{Duration, Instant};
 
-fn alphabet() -> Vec<Value> {
+fn alphabet(with_foreign_price: bool) -> Vec<Value> {
     let mut a = vec![];
     let orders = vec![
         json!({"type":"Standard","vis":5}),
@@ -23,6 +23,7 @@ fn alphabet() -> Vec<Value> {
         json!({"type":"TrailingStop","vis":7}),
     ];
     for o in orders { a.push(json!({"op":"add","order":o})); }
+    if with_foreign_price { a.push(json!({"op":"add","order":{"type":"PeggedOrder","vis":6,"price":99}})); }
     for q in [1u64, 3, 5, 7, 50] { a.push(json!({"op":"match","qty":q})); }
     for id in [1u64, 2] { a.push(json!({"op":"cancel","id":id})); }
     for (id, q) in [(1u64, 0u64), (1, 2), (1, 9), (2, 3)] { a.push(json!({"op":"update_qty","id":id,"qty":q})); }
@@ -58,12 +59,44 @@ fn materialize(seq: &[usize], alpha: &[Value]) -> Option<Vec<Value>> {
     Some(ops)
 }
 
+fn queue_alphabet() -> Vec<Value> {
+    let mut a = vec![];
+    for id in [1u64, 2, 3] { a.push(json!({"op":"push","order":{"type":"Standard","id":id,"price":100,"vis":5,"side":"Sell","ts":id}})); }
+    a.push(json!({"op":"pop"}));
+    for id in [1u64, 2] { a.push(json!({"op":"remove","id":id})); }
+    a.push(json!({"op":"find","id":1}));
+    a
+}
+
+/// queue histories: an id may be pushed again only after it left the queue (the property's own domain)
+fn materialize_queue(seq: &[usize], alpha: &[Value]) -> Option<Vec<Value>> {
+    let mut queued: Vec<u64> = vec![];
+    let mut fifo: std::collections::VecDeque<u64> = std::collections::VecDeque::new();
+    let mut ops = vec![];
+    for &i in seq {
+        let op = alpha[i].clone();
+        match op["op"].as_str().unwrap() {
+            "push" => { let id = op["order"]["id"].as_u64().unwrap(); if queued.contains(&id) { return None; } queued.push(id); fifo.push_back(id); }
+            "remove" => { let id = op["id"].as_u64().unwrap(); queued.retain(|x| *x != id); }
+            "pop" => { // which id leaves is decided by the implementation; keep the over-approximation simple: forget all
+                       // ids that could have left so that a later push of the same id is only generated after a removal
+                while let Some(t) = fifo.pop_front() { if queued.contains(&t) { queued.retain(|x| *x != t); break; } } }
+            _ => {}
+        }
+        ops.push(op);
+    }
+    Some(ops)
+}
+
 pub fn run(v: &Value, rep: &mut Report) -> Result<(), String> {
+    if v.get("target").and_then(|x| x.as_str()) == Some("queue") { return run_queue(v, rep); }
     let prop = v.get("property").and_then(|x| x.as_str()).ok_or("search without property")?.to_string();
     let depth = v.get("depth").and_then(|x| x.as_u64()).unwrap_or(4) as usize;
     let budget = Duration::from_millis(v.get("budget_ms").and_then(|x| x.as_u64()).unwrap_or(20000));
     let exclude: Vec<String> = v.get("exclude").and_then(|x| x.as_array()).map(|a| a.iter().filter_map(|s| s.as_str().map(String::from)).collect()).unwrap_or_default();
-    let alpha = alphabet();
+    let require: Vec<String> = v.get("require").and_then(|x| x.as_array()).map(|a| a.iter().filter_map(|s| s.as_str().map(String::from)).collect()).unwrap_or_default();
+    // an order carrying a price different from the level's is inside the domain of the restore properties only
+    let alpha = alphabet(prop == "C10" || prop == "C11");
     let t0 = Instant::now();
     let current: Arc<Mutex<Option<Value>>> = crate::CURRENT.clone();
     let mut tried: u64 = 0;
@@ -78,7 +111,10 @@ pub fn run(v: &Value, rep: &mut Report) -> Result<(), String> {
                 if crate::level_history::run(&hist, &mut r).is_ok() {
                     tried += 1;
                     let hits: Vec<&String> = r.lines.iter().filter(|l| l.contains(&format!("property={prop} ")) && !exclude.iter().any(|e| l.contains(&format!("clause={e} ")))).collect();
-                    if !hits.is_empty() {
+                    // a deviation from the executable contract model counts only if the history also violates the
+                    // property's own (ideal) oracle: a change that merely behaves BETTER than the contracts is no alarm
+                    let co = require.iter().all(|q| r.lines.iter().any(|l| l.contains(&format!("clause={q} "))));
+                    if !hits.is_empty() && co {
                         for h in hits.iter().take(3) { rep.lines.push((*h).clone()); }
                         rep.lines.push(format!("REPLAY-FOUND {}", hist));
                         return Ok(());
@@ -98,5 +134,50 @@ pub fn run(v: &Value, rep: &mut Report) -> Result<(), String> {
         }
     }
     eprintln!("search: {tried} histories up to depth {depth} in {:?}, nothing found for {prop}", t0.elapsed());
+    Ok(())
+}
+
+fn run_queue(v: &Value, rep: &mut Report) -> Result<(), String> {
+    let prop = v.get("property").and_then(|x| x.as_str()).unwrap_or("C19").to_string();
+    let depth = v.get("depth").and_then(|x| x.as_u64()).unwrap_or(7) as usize;
+    let budget = Duration::from_millis(v.get("budget_ms").and_then(|x| x.as_u64()).unwrap_or(20000));
+    let exclude: Vec<String> = v.get("exclude").and_then(|x| x.as_array()).map(|a| a.iter().filter_map(|s| s.as_str().map(String::from)).collect()).unwrap_or_default();
+    let require: Vec<String> = v.get("require").and_then(|x| x.as_array()).map(|a| a.iter().filter_map(|s| s.as_str().map(String::from)).collect()).unwrap_or_default();
+    let alpha = queue_alphabet();
+    let t0 = Instant::now();
+    let mut tried: u64 = 0;
+    for d in 1..=depth {
+        let mut idx = vec![0usize; d];
+        'outer: loop {
+            if t0.elapsed() > budget { break; }
+            if let Some(ops) = materialize_queue(&idx, &alpha) {
+                let hist = json!({"kind":"queue_history","ops":ops});
+                *crate::CURRENT.lock().unwrap() = Some(hist.clone());
+                let mut r = Report::default();
+                if crate::queue_history::run(&hist, &mut r).is_ok() {
+                    tried += 1;
+                    let hits: Vec<&String> = r.lines.iter().filter(|l| l.contains(&format!("property={prop} ")) && !exclude.iter().any(|e| l.contains(&format!("clause={e} ")))).collect();
+                    // a deviation from the executable contract model counts only if the history also violates the
+                    // property's own (ideal) oracle: a change that merely behaves BETTER than the contracts is no alarm
+                    let co = require.iter().all(|q| r.lines.iter().any(|l| l.contains(&format!("clause={q} "))));
+                    if !hits.is_empty() && co {
+                        for h in hits.iter().take(3) { rep.lines.push((*h).clone()); }
+                        rep.lines.push(format!("REPLAY-FOUND {}", hist));
+                        return Ok(());
+                    }
+                }
+                *crate::CURRENT.lock().unwrap() = None;
+            }
+            let mut k = d;
+            loop {
+                if k == 0 { break 'outer; }
+                k -= 1;
+                idx[k] += 1;
+                if idx[k] < alpha.len() { break; }
+                idx[k] = 0;
+            }
+        }
+    }
+    eprintln!("search(queue): {tried} histories up to depth {depth} in {:?}, nothing found for {prop}", t0.elapsed());
     Ok(())
 }
